@@ -28,7 +28,7 @@ def rd(ctx, N, M=16, B=4, K=1, qN=None, tiers=("quick", "thorough"), labels=None
     return r
 
 
-RD_CONTEXTS_Q = [(0, 3), (1, 2), (2, 2), (11, 2), (12, 2), (16, 2), (17, 2), (24, 2), (52, 2), (57, 2), (60, 2)]
+RD_CONTEXTS_Q = [(0, 3), (1, 2), (2, 2), (3, 2), (11, 2), (12, 2), (16, 2), (17, 2), (24, 2), (52, 2), (57, 2), (60, 2)]
 
 def rdp(harness, ctx, N, picks, labels, covers=(), M=16, tiers=("quick", "thorough"), extra=None):
     r = rd(ctx, N, M=M, labels=labels, covers=covers, harness=harness, tiers=tiers, extra=extra)
@@ -53,7 +53,8 @@ CHECKS = {
     "C04": {
         "level": "model_checking",
         "runs": [rdp("VerifRdChunk", c, n, {"chunk": ch, "bufio": b}, ["C04:"], ["ran"])
-                 for (c, n, ch, b) in [(0, 3, 0, 0), (0, 3, 1, 1), (0, 3, 2, 0), (1, 2, 3, 1), (2, 2, 0, 0), (11, 2, 1, 0), (12, 2, 0, 1), (52, 2, 1, 0)]],
+                 for (c, n, ch, b) in [(0, 3, 0, 0), (0, 3, 1, 1), (0, 3, 2, 0), (1, 2, 3, 1), (2, 2, 0, 0), (11, 2, 1, 0), (12, 2, 0, 1), (52, 2, 1, 0)]] +
+                [rdp("VerifRdChunk", 3, 3, {"chunk": 1, "bufio": b}, ["C04:"], ["ran"], tiers=["thorough"], extra={"K": k}) for (k, b) in [(1, 0), (2, 3)]],
         "assumptions": ["relational harness: the same symbolic stream decoded once from one piece and once through a chunking source behind bufio.NewReaderSize(16|17|64|4096), destination sizes 64 vs B2"],
     },
     "C05": {
